@@ -51,7 +51,7 @@ def cases(tier, rng):
     yield {'objs': [], 'compression': 'gzip', 'via': 'path'}
     yield {'objs': [{}, {'a': 'x\ny'}, {}], 'compression': 'zstd', 'via': 'path'}
     yield {'objs': [{'a': i, 's': 'x' * 50} for i in range(3000)], 'compression': None, 'via': 'shortread'}
-    n = {'quick': 60, 'thorough': 800, 'search': 60}[tier]
+    n = {'quick': 120, 'thorough': 800, 'search': 60}[tier]
     for _ in range(n):
         k = rng.choice([0, 1, 2, 5, 50, 300, 300, 1500]) if tier != 'thorough' else rng.choice([0, 1, 5, 100, 1000, 3000])
         if tier == 'thorough' and rng.random() < 0.05:
